@@ -52,7 +52,11 @@ RoundTrip == IsCase => LET r == DecTop(S, RootT, E) IN
              /\ Canon(S, RootT, r.v) = Norm(S, RootT, V)
              /\ Enc(S, RootT, r.v) = E
 
-PrefixIsError == IsCase => \A k \in 0..(Len(E) - 1) : ~DecTop(S, RootT, SubSeq(E, 1, k)).ok
+\* every cut of encodings up to 160 bytes; of longer ones the first and last 12 cuts and every 97th in between
+\* (the check is quadratic in the length; the REAL decoders are still run on every cut, see C06)
+CutPoints == IF Len(E) <= 160 THEN 0..(Len(E) - 1)
+             ELSE {k \in 0..(Len(E) - 1) : k < 12 \/ k >= Len(E) - 12 \/ k % 97 = 0}
+PrefixIsError == IsCase => \A k \in CutPoints : ~DecTop(S, RootT, SubSeq(E, 1, k)).ok
 
 \* the ideal decoder is total on every corruption (and, by construction, never
 \* "allocates" a count it has not checked against the remaining input)
